@@ -633,9 +633,45 @@ def obligations(tier, only=None):
     return obs
 
 
+def ob_reshuffle_keeps_active_set():
+    """C17: a reshuffle drawn with the store's probabilities keeps the active prefix a permutation of itself
+    (lemma over the assumed contract of jax.random.choice: rows with p == 0 come after every row with p > 0;
+    that the reshuffle is drawn with the store's p is the C09 obligation `reshuffle_uses_store_probabilities`)"""
+    name = "C17/lemma/reshuffle_keeps_the_active_prefix"
+    def run(seed):
+        t0 = time.time()
+        pi = z3.Function("pi", z3.IntSort(), z3.IntSort())
+        inv = z3.Function("pi_inv", z3.IntSort(), z3.IntSort())
+        m, a, bq = z3.Ints("m a bq")
+        pz = z3.Function("p", z3.IntSort(), z3.RealSort())
+        size = n
+        # assumed contract of choice(key, store, (n,), replace=False, p), in counting form: the rows with p > 0 occupy
+        # exactly the first cnt positions, cnt = number of rows with p > 0; counting lemma: cnt = m under ACTIVE
+        cnt = z3.Int("cnt")
+        contract = [z3.ForAll([a], z3.Implies(z3.And(a >= 0, a < size), z3.And(pi(a) >= 0, pi(a) < size))),
+                    z3.ForAll([a], z3.Implies(z3.And(a >= 0, a < size), (a < cnt) == (pz(pi(a)) != 0)))]
+        active = [z3.ForAll([a], z3.Implies(z3.And(a >= 0, a < size), (pz(a) != 0) == (a < m))), m >= 0, m <= size, cnt == m]
+        # goal: position k of the new store is active  <=>  it holds a row that was active
+        goal = z3.Implies(z3.And(k_ >= 0, k_ < size), (k_ < m) == (pi(k_) < m))
+        st, model = prove(goal, contract + active, timeout_ms=60000)
+        if st == "unknown":
+            return dict(status="undecided", backend="z3", detail="z3 unknown (quantified pigeonhole argument)")
+        if st == "sat":
+            return dict(status="violated", failure="lemma", detail=str(model)[:300], replay=dict(native_disagrees=False, solver_output=str(model)[:500]))
+        return dict(status="discharged", backend="z3", solver_s=time.time() - t0, sample=str(goal))
+    return FnObligation(name, run, [DG + "_reset_batch_idx_and_permute"])
+
+
 def c17_obligations(tier):
     obs = []
     for kind in ("ODE", "statio", "nonstatio"):
         for cl in C17_CLAUSES:
             obs.append(ob_step_true(kind, cl))
+    obs.append(ob_reshuffle_keeps_active_set())
+    # the reshuffle of a RAR store is drawn with the store's probability vector (C09 step contract, restated)
+    from contracts import c09
+    for which in ("DataGeneratorODE.temporal_batch", "CubicMeshPDENonStatio.temporal_batch", "CubicMeshPDEStatio.inside_batch[dim=1]"):
+        o = c09.consumer_ob(which, True, "reshuffle_uses_store_probabilities")
+        o.name = o.name.replace("C09/", "C17/")
+        obs.append(o)
     return obs
